@@ -478,6 +478,9 @@ func Serve(opts Options) error {
 			return err
 		}
 		defer func() {
+			// connections and a running AOFSHRINK still use (and replace) s.aof
+			s.mu.Lock()
+			defer s.mu.Unlock()
 			s.flushAOF(false)
 			s.aof.Sync()
 		}()
